@@ -284,7 +284,23 @@ template <class G> class Obj : public IObj {
         }
     }
 
+    // an observer that throws on a valid graph is reported, not propagated
     json project() const override {
+        try {
+            return projectImpl();
+        } catch (const std::exception &e) {
+            return json{{"inconsistent", std::string("an observer threw: ") + e.what()}};
+        }
+    }
+    json enc() const override {
+        try {
+            return encImpl();
+        } catch (const std::exception &e) {
+            return json{{"inconsistent", std::string("an observer threw: ") + e.what()}};
+        }
+    }
+
+    json projectImpl() const {
         std::string bad;
         json o = json::object();
         const size_t n = g.getSize();
@@ -449,7 +465,7 @@ template <class G> class Obj : public IObj {
         return o;
     }
 
-    json enc() const override {
+    json encImpl() const {
         std::string bad;
         json e = json::object();
         const size_t n = g.getSize();
